@@ -1,4 +1,6 @@
 import Typegen.ProjectSpec
+import Typegen.FileFilter
+import Typegen.TablesExpected
 /-! # C03 — exactly one wrapper per discovered command, invoking exactly its Rust name
 
 Model: `An.analyze` (file filter, sorted file order, `fileCommands`) and `Gn.tsCommandsFile` /
@@ -79,5 +81,25 @@ example : fileSelected cl!"/home/u/app/src-tauri" { relPath := cl!"a/b/cmd.rs", 
     fileSelected cl!"/home/u/app/src-tauri" { relPath := cl!"target/debug/x.rs", parses := true, items := [] } = false ∧
     fileSelected cl!"/home/u/app/src-tauri" { relPath := cl!"targets/x.rs", parses := true, items := [] } = true ∧
     fileSelected cl!"/home/u/app/src-tauri" { relPath := cl!"notes.txt", parses := true, items := [] } = false := by decide +kernel
+
+
+/-! ## the file filter is the statement's, for clean project paths; the source's decision tables -/
+
+/-- for a project path none of whose components is `target` / `.git`, the tool's substring test on the full path
+    selects exactly the files of the statement (`.rs`, parses, no `target` / `.git` directory component below the
+    project path) — K03a is exactly the failure of the hypothesis -/
+theorem C03_filter_is_statement (root : Str) (f : Pj.File) (h : Sp.rootUnclean root = false) :
+    An.fileSelected root f = Sp.specSelected f := An.C03_filter_is_spec root f h
+
+/-- **C03 (full, clean project paths)**: the discovered commands are, up to order, exactly the top-level functions
+    with a command attribute in the statement's files -/
+theorem C03_commands_exactly_statement (p : Pj.Project) (h : Sp.rootUnclean p.absRoot = false) :
+    ((An.analyze p).commands.map (·.name)).Perm ((Sp.specCommands p).map (·.2.name)) :=
+  An.C03_commands_exactly_spec p h
+
+/-- the literals of `is_tauri_command` and of the file walk, re-read from the source on this run, are the ones the
+    model (`isTauriCommand`, `fileSelected`) was written against -/
+theorem C03_source_table_command_attribute : Exp.litsOf "is_tauri_command" = Exp.isTauriCommand := by decide
+theorem C03_source_table_file_walk : Exp.litsOf "parse_and_cache_all_files" = Exp.parseAndCacheAllFiles := by decide
 
 end TG.C03
